@@ -15,6 +15,7 @@ for f in theirs.get('findings', []):
 for r in theirs.get('retired_ids', []):
     if r not in ours.setdefault('retired_ids', []):
         ours['retired_ids'].append(r)
+ours['findings'] = [f for f in ours['findings'] if f['id'] not in ours.get('retired_ids', [])]
 json.dump(ours, open('KNOWN_FINDINGS.json','w'), indent=1, ensure_ascii=False)
 PY
 for f in MANIFEST.json DESIGN.md; do git checkout --ours $f 2>/dev/null; done
